@@ -111,7 +111,9 @@ func (c *Client) Ping(quit <-chan struct{}) error {
 	}
 
 	// submit transaction
+	verifPoint("ping.installed")
 	if err := c.write(quit, packetPINGREQ); err != nil {
+		verifPoint("ping.writefail")
 		select {
 		case <-c.pingAck: // unlock
 		default: // picked up by unrelated pong
@@ -126,6 +128,7 @@ func (c *Client) Ping(quit <-chan struct{}) error {
 	case err := <-done:
 		return err
 	case <-quit:
+		verifPoint("ping.quit")
 		select {
 		case <-c.pingAck: // unlock
 			return fmt.Errorf("%w; PING not confirmed", ErrAbandoned)
@@ -594,6 +597,7 @@ func (c *Client) submitPersisted(packet net.Buffers, out outbound) (exchange <-c
 		return nil, err
 	}
 	seq.acceptN++
+	verifPoint("submit.saved")
 
 	// submit
 	if hasBacklog {
@@ -720,6 +724,7 @@ func (c *Client) onPUBREC() error {
 		return err // causes resubmission of PUBLISH (from persistence)
 	}
 	c.orderedTxs.Received++
+	verifPoint("pubrec.saved")
 
 	err = c.write(nil, c.pendingAck)
 	if err != nil {
